@@ -33,6 +33,28 @@ theorem roundtrip (prev cur : List (κ × ν)) (hp : UniqueKeys prev) (hc : Uniq
         (by intro x; rw [p3]; exact b3 x)
       exact plookup_eq_of_mget cur _ m1 (by intro x; rw [m2 x, c3])
 
+/-- the same for a FOLLOWER: the diff computed from (prev, cur) applied to any map `base` that equals `prev`
+as a map (whatever its iteration order) gives a map equal to `cur` -/
+theorem roundtrip_follower (prev cur base : List (κ × ν)) (hp : UniqueKeys prev) (hc : UniqueKeys cur) (hb : UniqueKeys base)
+    (hbp : ∀ k, plookup base k = plookup prev k) (b : Bool) (d : Diff κ ν)
+    (h : hashcmp prev cur b = some d) :
+    UniqueKeys (apply base d) ∧ ∀ k, plookup (apply base d) k = plookup cur k := by
+  obtain ⟨p1, p2, p3, p4⟩ := coll_unique b prev hp
+  obtain ⟨c1, c2, c3, c4⟩ := coll_unique b cur hc
+  obtain ⟨b1, b2, b3, _⟩ := coll_unique true base hb
+  simp only [hashcmp, hashcmpA_eq] at h
+  split at h
+  · simp only [Option.some.injEq] at h
+    subst h
+    exact plookup_eq_of_mget cur _ c1 c3
+  · split at h
+    · cases h
+    · simp only [Option.some.injEq] at h
+      subst h
+      obtain ⟨m1, m2⟩ := roundtrip_mget (coll b prev) (coll b cur) (collectKeyEq base) p1 c1 p2 c2 b1 b2
+        (by intro x; rw [p3, ← hbp x]; exact b3 x)
+      exact plookup_eq_of_mget cur _ m1 (by intro x; rw [m2 x, c3])
+
 /-- both representations occur -/
 example : hashcmp [(1, 10), (2, 20), (3, 30), (4, 40)] [(1, 11)] false = some (.replace [(1, 11)]) := by decide
 example : hashcmp [(1, 10), (2, 20), (3, 30)] [(1, 10), (2, 21), (4, 40)] true
